@@ -95,6 +95,9 @@ type Leaf struct {
 
 type Enc struct {
 	Mode Mode
+	// onPow2 is told about every variable shift count encoded through pow2, so
+	// that the VC can state pow2's value for counts in [0,64]
+	onPow2 func(y Term)
 }
 
 func (e *Enc) Idx() Sort {
@@ -582,6 +585,9 @@ func (e *Enc) shift(op token.Token, x, y Term, xsigned, ysigned bool) Term {
 			return app(SInt, "*", x, p)
 		}
 		return app(SInt, "div", x, p)
+	}
+	if e.onPow2 != nil {
+		e.onPow2(y)
 	}
 	if op == token.SHL {
 		return app(SInt, "*", x, app(SInt, "pow2", y))
